@@ -65,6 +65,8 @@ class FoldBinary(Case):
                 if op == 'EXP' and b > 300:
                     continue
                 seeds.append({'a': a, 'b': b})
+        if op in ('SHL', 'SHR', 'SAR'):
+            seeds += [{'a': 2 ** 40, 'b': 1}, {'a': 2 ** 256 - 1, 'b': 2 ** 256 - 1}]
         self.seeds = seeds
 
     def run(self, H):
@@ -75,6 +77,18 @@ class FoldBinary(Case):
             # native replay of an astronomically large power would not terminate: that *is* the resource violation
             H.check('resource:pow-exponent-bounded', False)
             return
+        if not H.symbolic and self.op in ('SHL', 'SHR', 'SAR') and a > 2 ** 24:
+            # run the fold under a memory cap: building an integer of `a` bits is the resource violation
+            import resource
+            soft, hard = resource.getrlimit(resource.RLIMIT_AS)
+            resource.setrlimit(resource.RLIMIT_AS, (3 * 2 ** 30, hard))
+            try:
+                out = H.call(go.evaluate_expression, self.funct, v0, v1)
+            finally:
+                resource.setrlimit(resource.RLIMIT_AS, (soft, hard))
+            if not out.ok and isinstance(out.exc, (MemoryError, OverflowError)):
+                H.check('resource:pow-exponent-bounded', False)
+                return
         out = H.call(go.evaluate_expression, self.funct, v0, v1)
         H.check('raises-nothing', out.ok, info=repr(out.exc))
         if not out.ok:
@@ -298,3 +312,75 @@ def cases(tier='quick'):
     return cs, dict(fold_table=dict((k, list(v)) for k, v in t2.items()),
                     fold3_table=dict((k, list(v)) for k, v in t3.items()),
                     not_folded=[op for op in FOLD_VOCAB + FOLD3_VOCAB if op not in t2 and op not in t3])
+
+
+# ---------------------------------------------------------------------------------------------------------------
+from pyvc.harness import NativeCase
+
+
+class RulesOnOff(NativeCase):
+    """bounded stand-in for the context rules (apply_cond_transformation, apply_comparation_rules) and the fixpoint drivers:
+    for every instantiation of a rule's left-hand side (contracts/blocks.py: rule_shape_blocks) the specification with rules,
+    the specification without rules and the block itself evaluate to the same stack/memory/storage on sampled states that
+    include 0, 1, 2^160-1, 2^255, 2^256-1; in size mode the specification with rules is not larger"""
+    prop = 'C03'
+    name = "rules-on=rules-off=exec(bounded)"
+    functions = (go.apply_cond_transformation, go.apply_comparation_rules, go.apply_all_comparison, go.apply_all_simp_rules,
+                 go.apply_transform_rules, go.replace_var, go.replace_var_userdef, go.update_tstack_userdef, go.compute_binary,
+                 go.compute_ternary, go.update_unary_func)
+    weight = 80
+
+    def run_native(self, tier):
+        from specs import evmexec, speceval
+        from . import blocks as corpus, pipeline
+        from .common import plain_names, cleanup_tmp
+        shapes = corpus.rule_shape_blocks(1 if tier == 'quick' else 2)
+        n_states = 10 if tier == 'quick' else 30
+        n = 0
+        for b in shapes:
+            toks = corpus.tokens(b)
+            items = evmexec.parse_plain(toks)
+            depth = utils.compute_stack_size(plain_names(toks))
+            specs = {}
+            for nm, opts in (('on', dict()), ('off', dict(simplification=False))):
+                pipeline.reset_sticky_globals()
+                try:
+                    spec, sub = spec_of_block(toks, **opts)
+                except BaseException as e:
+                    specs[nm] = None
+                    continue
+                specs[nm] = spec[list(spec)[0]] if len(spec) == 1 else None
+            for nm, sfs in specs.items():
+                if sfs is None:
+                    continue
+                n += 1
+                lins = speceval.linearizations(sfs, limit=20)
+                bad = None
+                for order in lins[:4]:
+                    for stack in evmexec.sample_stacks(depth, n=n_states, seed=3):
+                        try:
+                            ref = evmexec.run(items, stack, 0)
+                        except evmexec.Underflow:
+                            continue
+                        try:
+                            final, st = speceval.evaluate(sfs, order, stack[:len(sfs["src_ws"])], 0)
+                        except BaseException as e:
+                            bad = "evaluation failed: %r" % (e,)
+                            break
+                        if final != ref.stack[:len(final)] or len(ref.stack) - len(final) != depth - len(sfs["src_ws"]):
+                            bad = "stack %s: specification gives %s, block gives %s" % ([hex(x) for x in stack], [hex(x) for x in final[:3]], [hex(x) for x in ref.stack[:3]])
+                            break
+                    if bad:
+                        break
+                self.ob('specification(rules %s) evaluates like the block' % nm, bad is None, inputs=dict(block=b, rules=nm, applied=sfs.get("rules")), info=bad)
+        cleanup_tmp()
+        self.assumptions = ("bounded: %d rule-shape blocks x {rules on, rules off}, %d sampled stacks each" % (len(shapes), n_states + 5),)
+
+
+_cases_p = cases
+
+
+def cases(tier='quick'):
+    cs, meta = _cases_p(tier)
+    cs.append(RulesOnOff())
+    return cs, meta
